@@ -1,6 +1,7 @@
 package drv
 
 import (
+	"crypto/x509/pkix"
 	"bytes"
 	"encoding/hex"
 	"math/big"
@@ -169,6 +170,14 @@ func RunPckExtCase(cs map[string]any, id int, seed int64) Result {
 					e = classElem(k)
 				case "missing":
 					e = unknownTcbElem()
+					if idx := tcbIndex(k); idx <= 17 && id%3 == 0 {
+						// an element *below* the missing one's OID (one or two more arcs) with a fitting value is not that element
+						deeper := append(gen.TcbCompOID(idx), []int{0, 1, 7}[rng.Intn(3)])
+						if rng.Intn(2) == 0 {
+							deeper = append(deeper, 1)
+						}
+						e = gen.ElemInt(deeper, int64(rng.Intn(200)))
+					}
 				case "missingDup": // a neighbouring element twice instead of this one
 					nb := "c3"
 					if k == "c16" {
@@ -257,6 +266,14 @@ func RunPckExtCase(cs map[string]any, id int, seed int64) Result {
 	cert, _ := gen.Issue(spec)
 	if len(cert.Extensions) != 6 {
 		panic("generated PCK certificate does not have six extensions")
+	}
+	// the SGX extension may sit anywhere among the six (x509.CreateCertificate always writes it last; the library sees the parsed list)
+	if pos := id % 6; pos != 5 && structural != "absent" {
+		exts := append([]pkix.Extension{}, cert.Extensions...)
+		sgxExt := exts[5]
+		copy(exts[pos+1:], exts[pos:5])
+		exts[pos] = sgxExt
+		cert.Extensions = exts
 	}
 	var got *pcs.PckExtensions
 	out := Guard(10*time.Second, func() error {
